@@ -67,4 +67,8 @@ def power_law(eqps, Y0, n, eps0):
 
 def power_law_rate_sensitivity(eqps, eqpsOld, dt, S, m, epsDot0):
     eqpsDot = (eqps - eqpsOld)/dt
-    return m/(m + 1)*S*epsDot0*dt*(eqpsDot/epsDot0)**((m+1)/m)
+    # x**((m+1)/m) has an unbounded second derivative at x = 0 for m > 1, which reverse-mode differentiation
+    # multiplies with a zero cotangent (NaN) in every elastic step. The potential and its slope vanish there.
+    isFlowing = eqpsDot > 0
+    x = np.where(isFlowing, eqpsDot/epsDot0, 1.0)
+    return np.where(isFlowing, m/(m + 1)*S*epsDot0*dt*x**((m+1)/m), 0.0)
